@@ -496,8 +496,9 @@ fn main() {
                 a.get("stats"),
                 &a.str_or("work", "/verif/work/lockconn"),
             ));
-            // service threads of the database may still be parked: leave without joining them
-            std::process::exit(0);
+            // service threads of the database are still running: leave without running the C library's exit
+            // handlers (they race with those threads); every output file has been flushed and closed
+            unsafe { libc::_exit(0) }
         }
         _ => {
             eprintln!("usage: dv-lockconn run …");
